@@ -68,4 +68,197 @@ theorem nextJ_step {w : Nat} {ru : List Nat} {i j j' : Nat} (h : nextJ w (ru.set
   simp only [List.length_set] at hj3
   omega
 
+/-! ### `np.unique` and the scatter assignment of `represent_distance_matrix_rows_as_distributions` -/
+
+theorem mem_insertUniq {α : Type} [DecidableEq α] (lt : α → α → Bool) (a x : α) (l : List α) :
+    a ∈ insertUniq lt x l ↔ a = x ∨ a ∈ l := by
+  induction l with
+  | nil => simp [insertUniq]
+  | cons y ys ih =>
+    unfold insertUniq
+    split
+    · simp
+    · split
+      · rename_i h; subst h; simp
+      · simp only [List.mem_cons, ih]
+        constructor
+        · rintro (h | h | h) <;> simp [h]
+        · rintro (h | h | h) <;> simp [h]
+
+theorem mem_uniqueSorted {α : Type} [DecidableEq α] (lt : α → α → Bool) (a : α) (l : List α) :
+    a ∈ uniqueSorted lt l ↔ a ∈ l := by
+  induction l with
+  | nil => simp [uniqueSorted]
+  | cons y ys ih =>
+    have : uniqueSorted lt (y :: ys) = insertUniq lt y (uniqueSorted lt ys) := rfl
+    rw [this, mem_insertUniq, ih]; simp
+
+theorem count_map_tag (row : List Nat) (x r r0 : Nat) :
+    (row.map (fun y => (y, r0))).count (x, r) = if r = r0 then row.count x else 0 := by
+  induction row with
+  | nil => simp
+  | cons y ys ih =>
+    simp only [List.map_cons, List.count_cons, ih]
+    by_cases hr : r = r0
+    · subst hr; by_cases hy : y = x <;> simp [hy]
+    · have : ((y, r0) == (x, r)) = false := by simp; intro _; exact fun h => hr h.symm
+      simp [hr, this]
+
+theorem count_tagRowsFrom (D : List (List Nat)) (r0 x r : Nat) :
+    (tagRowsFrom r0 D).count (x, r) = if r0 ≤ r then (D.getD (r - r0) []).count x else 0 := by
+  induction D generalizing r0 with
+  | nil => simp [tagRowsFrom]
+  | cons row rest ih =>
+    simp only [tagRowsFrom, List.count_append, count_map_tag, ih]
+    by_cases h1 : r = r0
+    · subst h1; simp
+    · by_cases h2 : r0 ≤ r
+      · have h3 : r0 + 1 ≤ r := by omega
+        have h4 : r - r0 = (r - (r0 + 1)) + 1 := by omega
+        simp [h1, h2, h3, h4]
+      · have h3 : ¬ r0 + 1 ≤ r := by omega
+        simp [h1, h2, h3]
+
+theorem count_tagRows (D : List (List Nat)) (x r : Nat) : (tagRows D).count (x, r) = (D.getD r []).count x := by
+  simp [tagRows, count_tagRowsFrom]
+
+theorem mem_tagRowsFrom {D : List (List Nat)} {r0 : Nat} {k : Nat × Nat} (h : k ∈ tagRowsFrom r0 D) :
+    r0 ≤ k.2 ∧ k.2 < r0 + D.length ∧ k.1 ∈ D.getD (k.2 - r0) [] := by
+  induction D generalizing r0 with
+  | nil => simp [tagRowsFrom] at h
+  | cons row rest ih =>
+    simp only [tagRowsFrom, List.mem_append, List.mem_map] at h
+    rcases h with ⟨y, hy, rfl⟩ | h
+    · simp [hy]
+    · obtain ⟨h1, h2, h3⟩ := ih h
+      have h4 : k.2 - r0 = (k.2 - (r0 + 1)) + 1 := by omega
+      refine ⟨by omega, by simp; omega, ?_⟩
+      rw [h4]; simpa using h3
+
+/-- the entry `M[r][c]` (0 outside the matrix) -/
+def cell (M : List (List Nat)) (r c : Nat) : Nat := (M.getD r []).getD c 0
+
+
+
+theorem getD_set_row (M : List (List Nat)) (r0 r : Nat) (x : List Nat) (h : r0 < M.length) :
+    (M.set r0 x).getD r [] = if r = r0 then x else M.getD r [] := by
+  by_cases e : r = r0
+  · subst e; simp [List.getD, h]
+  · simp [List.getD, e, Ne.symm e]
+
+theorem getD_set_nat (l : List Nat) (c0 c v : Nat) (h : c0 < l.length) :
+    (l.set c0 v).getD c 0 = if c = c0 then v else l.getD c 0 := by
+  by_cases e : c = c0
+  · subst e; simp [List.getD, h]
+  · simp [List.getD, e, Ne.symm e]
+
+theorem cell_set (M : List (List Nat)) (r0 c0 v r c : Nat) (row : List Nat) (hr : M[r0]? = some row) (hc : c0 < row.length) :
+    cell (M.set r0 (row.set c0 v)) r c = if r = r0 ∧ c = c0 then v else cell M r c := by
+  have hr0 : r0 < M.length := by
+    rcases Nat.lt_or_ge r0 M.length with h | h
+    · exact h
+    · simp [List.getElem?_eq_none h] at hr
+  have hrow : M.getD r0 [] = row := by simp [List.getD, hr]
+  unfold cell
+  rw [getD_set_row _ _ _ _ hr0]
+  by_cases h1 : r = r0
+  · subst h1
+    simp only [if_true, true_and, getD_set_nat _ _ _ _ hc, hrow]
+  · simp [h1]
+
+/-- the scatter assignment of values `f k` at the positions `(k.2, maxD - k.1)` for the keys `k` of a list: no exception, and
+    entry by entry the value of the key that addresses the entry, if there is one -/
+theorem scatter2_keys (maxD n : Nat) (f : Nat × Nat → Nat) (ks : List (Nat × Nat)) :
+    ∀ (M : List (List Nat)), M.length = n → (∀ row ∈ M, row.length = maxD + 1) → (∀ k ∈ ks, k.1 ≤ maxD ∧ k.2 < n) →
+    ∃ M', scatter2 M (ks.map (fun x => x.2)) (ks.map (fun x => (maxD : Int) - (x.1 : Int))) (ks.map f) = .ok M' ∧
+      M'.length = n ∧ (∀ row ∈ M', row.length = maxD + 1) ∧
+      ∀ r c, r < n → c ≤ maxD → cell M' r c = if (maxD - c, r) ∈ ks then f (maxD - c, r) else cell M r c := by
+  induction ks with
+  | nil => intro M h1 h2 _; exact ⟨M, rfl, h1, h2, fun r c _ _ => by simp⟩
+  | cons k rest ih =>
+    intro M h1 h2 hk
+    obtain ⟨hk1, hk2⟩ := hk k (List.mem_cons_self ..)
+    have hlt : k.2 < M.length := by omega
+    have hrow : M[k.2]? = some M[k.2] := List.getElem?_eq_getElem hlt
+    have hlen : M[k.2].length = maxD + 1 := h2 _ (List.getElem_mem hlt)
+    have hc : ((maxD : Int) - (k.1 : Int)).toNat = maxD - k.1 := by omega
+    have hstep : scatterStep M k.2 ((maxD : Int) - (k.1 : Int)) (f k) = .ok (M.set k.2 (M[k.2].set (maxD - k.1) (f k))) := by
+      unfold scatterStep
+      have : ¬ ((maxD : Int) - (k.1 : Int) < 0) := by omega
+      simp only [this, if_false, hrow, hc]
+      rw [if_pos (by omega)]
+    obtain ⟨M', e1, e2, e3, e4⟩ := ih (M.set k.2 (M[k.2].set (maxD - k.1) (f k))) (by simpa using h1)
+      (by
+        intro row hrow'
+        rcases List.mem_or_eq_of_mem_set hrow' with h | h
+        · exact h2 _ h
+        · subst h; simpa using hlen)
+      (fun k' hk' => hk k' (List.mem_cons_of_mem _ hk'))
+    refine ⟨M', ?_, e2, e3, ?_⟩
+    · simp only [List.map_cons, scatter2, hstep]; exact e1
+    · intro r c hr hcm
+      rw [e4 r c hr hcm, cell_set _ _ _ _ _ _ _ hrow (by omega)]
+      obtain ⟨x0, r0⟩ := k
+      simp only [List.mem_cons, Prod.mk.injEq] at hk1 hk2 ⊢
+      by_cases hin : (maxD - c, r) ∈ rest
+      · simp only [hin, if_true, or_true]
+      · simp only [hin, if_false, or_false]
+        by_cases hk' : maxD - c = x0 ∧ r = r0
+        · have h3 : r = r0 ∧ c = maxD - x0 := ⟨hk'.2, by omega⟩
+          rw [if_pos h3, if_pos hk', hk'.1, hk'.2]
+        · have h3 : ¬ (r = r0 ∧ c = maxD - x0) := by
+            rintro ⟨e1', e2'⟩
+            exact hk' ⟨by omega, e1'⟩
+          rw [if_neg h3, if_neg hk']
+
+
+theorem cell_zeros2 (a b r c : Nat) : cell (zeros2 a b) r c = 0 := by
+  unfold cell zeros2
+  by_cases hr : r < a
+  · by_cases hc : c < b <;> simp [List.getD, hr, hc]
+  · simp [List.getD, hr]
+
+/-- `represent_distance_matrix_rows_as_distributions`: the scatter of the `np.unique` counts into the zero matrix raises nothing,
+    and without its last column it is the model's `rowsAsDistributions` (for entries `≤ max_d`, the docstring's "upper bound of the
+    entries in DX") -/
+theorem represent_scatter (DX : List (List Nat)) (maxD : Nat) (h : ∀ row ∈ DX, ∀ x ∈ row, x ≤ maxD) :
+    ∃ M, scatter2 (zeros2 DX.length (maxD + 1)) ((uniqueCounts cpxLt (tagRows DX)).1.map (fun x => x.2))
+        ((uniqueCounts cpxLt (tagRows DX)).1.map (fun x => (maxD : Int) - (x.1 : Int))) (uniqueCounts cpxLt (tagRows DX)).2 = .ok M ∧
+      dropLastCol M = rowsAsDistributions DX maxD := by
+  have hkeys : ∀ k ∈ uniqueSorted cpxLt (tagRows DX), k.1 ≤ maxD ∧ k.2 < DX.length := by
+    intro k hk
+    rw [mem_uniqueSorted] at hk
+    obtain ⟨_, h2, h3⟩ := mem_tagRowsFrom hk
+    simp only [Nat.sub_zero, Nat.zero_add] at h2 h3
+    have hrow : DX.getD k.2 [] ∈ DX := by simp [List.getD, h2]
+    exact ⟨h _ hrow _ h3, h2⟩
+  obtain ⟨M, e1, e2, e3, e4⟩ := scatter2_keys maxD DX.length (fun x => (tagRows DX).count x) (uniqueSorted cpxLt (tagRows DX))
+    (zeros2 DX.length (maxD + 1)) (by simp [zeros2]) (by intro row hrow; simp [zeros2] at hrow; simp [hrow.2]) hkeys
+  refine ⟨M, by simpa only [uniqueCounts] using e1, ?_⟩
+  have hcell : ∀ r c, r < DX.length → c ≤ maxD → cell M r c = (DX.getD r []).count (maxD - c) := by
+    intro r c hr hc
+    rw [e4 r c hr hc, cell_zeros2, ← count_tagRows]
+    split
+    · rfl
+    · rename_i hn
+      rw [mem_uniqueSorted] at hn
+      exact (List.count_eq_zero.mpr hn).symm
+  unfold dropLastCol rowsAsDistributions
+  apply List.ext_getElem
+  · simp [e2]
+  · intro r h1 h2
+    simp only [List.getElem_map]
+    have hr : r < DX.length := by simpa using h2
+    have hrM : r < M.length := by omega
+    have hlen : M[r].length = maxD + 1 := e3 _ (List.getElem_mem hrM)
+    unfold rowDistribution
+    apply List.ext_getElem
+    · simp [hlen]
+    · intro c h3 h4
+      have hc : c < maxD := by simpa using h4
+      have := hcell r c hr (by omega)
+      simp only [cell, List.getD, List.getElem?_eq_getElem hrM, List.getElem?_eq_getElem hr, Option.getD_some,
+        List.getElem?_eq_getElem (show c < M[r].length by omega)] at this
+      simp [List.getElem_dropLast, this]
+
 end PersimVerif.SrcBridge.MGH
